@@ -3,8 +3,9 @@
 
 Proof: coq/Props/C02.v over coq/Lower/{TcTable,LowerTable,Cells}.v — the checker's admissibility/result-type
 tables and the compiler's lowering switches as finite tables over (operator x operand type classes x value
-context); `lowering_total` is refuted on the pinned tree (bad_cells computed by vm_compute), the partial
-theorem covers every other cell.
+context); `C02_lowering_total` holds for every cell and `C02_admitted_cells_compile` for every admitted
+(cell, context) — on the pinned tree both were refuted in the cells listed as `fixed: property=C02` in
+KNOWN_FINDINGS.jsonl; the tables follow the repaired code.
 
 Tie (exhaustive): every operator x every tuple of the 19 operand type classes is written as ONE DDP statement;
 the REAL frontend (harness cellx = parser.Parse of /repo) decides admissibility and reports the type the
@@ -775,7 +776,7 @@ def main():
     a = [i for i in sorted(admitted)][:3]
     for i in a:
         ck.sample(dict(cell=cell_name(cells[i]), statement=ctx_stmt("VI", "V", cells[i][3], i).strip(), checker_type=admitted[i]))
-    ck.sample(dict(cell="op=UN_NEGATE types=B", statement="Die Variable x ist -(vB).", expected="compiles", model="VInternal (duplicate case c.ddpinttyp)"))
+    ck.sample(dict(cell="op=UN_NEGATE types=B", statement="Die Variable x ist -(vB).", expected="compiles", model="VOk: zext i8 -> i64, sub"))
     ck.finish("exhaustive correspondence of checker table and lowering table with /repo; %d frontend-accepted one-statement programs do not compile (known findings are listed)" % n_viol)
 
 
